@@ -44,7 +44,10 @@ def check_scan(utils, hay, needle, buf, start, limit, use_tell=False):
         else:
             # an explicit start offset (0 included) must win over wherever the handle currently is
             fh.seek((len(hay) * 2) // 3)
-            got = lib(lambda: list(utils.iter_find_needle(fh, needle, start, limit or 0)), what="iter_find_needle")
+            if (len(hay) + start) % 2:  # positional and keyword form of the optional arguments
+                got = lib(lambda: list(utils.iter_find_needle(fh, needle, start, limit or 0)), what="iter_find_needle")
+            else:
+                got = lib(lambda: list(utils.iter_find_needle(fp=fh, needle=needle, max_offset=limit or 0, start_offset=start)), what="iter_find_needle")
     true = naive_find(hay, needle, start)
     hx = hay.hex() if len(hay) <= 64 else hay[:64].hex() + f"...({len(hay)} bytes)"
     ctx = lambda: f"hay={hx} needle={needle.hex()} buf={buf} start={start} limit={limit} got={got[:40]} true={true[:40]}"
@@ -221,7 +224,12 @@ def ak_execute(case, stats):
     if start == 0 and case["tellpos"] % 2:
         got = lib(lambda: list(artifact.iter_artifactkit_payloads(fh, **kwargs)), what="iter_artifactkit_payloads")  # documented default
     else:
-        got = lib(lambda: list(artifact.iter_artifactkit_payloads(fh, start, **kwargs)), what="iter_artifactkit_payloads")
+        if case["tellpos"] % 3 == 0:
+            got = lib(lambda: list(artifact.iter_artifactkit_payloads(fh, start, **kwargs)), what="iter_artifactkit_payloads")
+        elif case["tellpos"] % 3 == 1:
+            got = lib(lambda: list(artifact.iter_artifactkit_payloads(fobj=fh, start_offset=start, **kwargs)), what="iter_artifactkit_payloads")
+        else:
+            got = lib(lambda: list(artifact.iter_artifactkit_payloads(fh, start, case["maxrange"])), what="iter_artifactkit_payloads")
     want = ref_artifact_scan(data, eff_start, case["maxrange"])
     ctx = lambda: f"data={data.hex()} start={start} maxrange={case['maxrange']} got={[g.offset for g in got]} want={want}"
     check([g.offset for g in got] == want, "artifact:offsets", ctx)
